@@ -117,6 +117,11 @@ def run(F, rep, tier):
     c03.accept(F, rep, "CHECKER-AGREES")
     import c07
     c07.guard_discipline(F, rep)
+    # a generic function is checked through a copy of its type: the copy of an operator's requirement is the same requirement on the
+    # copied node (`/`: dividend, divisor and quotient stay what they were), or `quot :: fn a, b -> a / b` refuses a tuple by a number
+    import core as _core19
+    import c02 as _c02
+    _core19.borrow(rep, _c02.copy_structure, lambda o: o["rule"] == "COPY-STRUCTURE" and "Constraint::" in o["key"], F)
     # the operator the program wrote is the one the runtime applies, to the evaluated operands: no arm of the lowering computes
     # an operator itself for some operands
     import core
